@@ -1059,7 +1059,8 @@ class Device(device.Device):
                 raise nfc.clf.TransmissionError(str(error))
         except IOError as error:
             if error.errno == errno.ETIMEDOUT:
-                info = "no data received within %.3f s" % timeout
+                # timeout may be None (no time limit for the remote device)
+                info = "no data received within {} s".format(timeout)
                 self.log.debug(info)
                 raise nfc.clf.TimeoutError(info)
             else:
